@@ -99,6 +99,7 @@ func must(err error) {
 type fakeHAProxy struct {
 	mu        sync.Mutex
 	failRound int    // PUT/DELETE on the admin port answer 500 while the reload round equals this (0 = never)
+	refuseAll bool   // policies mode: refuse every PUT / DELETE while set
 	failCall  string // in round 1, refuse only the PUTs of this admin path ... (op fault hacall:<call>:<file>)
 	failFile  string // ... for the endpoints of this configuration file
 	round     func() int
@@ -115,6 +116,9 @@ func (f *fakeHAProxy) admin(w http.ResponseWriter, r *http.Request) {
 	f.adminHits++
 	f.lastHit = time.Now()
 	fail := f.failRound != 0 && r.Method == http.MethodPut && f.round() == f.failRound
+	if f.refuseAll {
+		fail = r.Method == http.MethodPut || r.Method == http.MethodDelete
+	}
 	if f.failCall != "" {
 		fail = r.Method == http.MethodPut && f.round() == 1 && r.URL.Path == f.failCall &&
 			endpointFile(string(body)) == f.failFile
@@ -574,6 +578,29 @@ func render(logical, tok string, builtin []byte) []byte {
 		return []byte("name: [unclosed\n  - : :\n\t{{{\n")
 	case strings.HasPrefix(tok, "x"):
 		return []byte(tok)
+	case strings.HasPrefix(logical, "f/") && tok[0] == 'e':
+		// valid YAML, but with an EMPTY / null map entry at one level of the flow document: every such file
+		// must be refused by the dry run (never crash the loader)
+		st := stem(logical)
+		good := string(render(logical, "v1", builtin))
+		switch k % 6 {
+		case 0: // an extra processor whose value is null
+			return []byte(strings.Replace(good, "processors:\n", "processors:\n  Extra"+st+":\n", 1))
+		case 1: // processors: null
+			i := strings.Index(good, "processors:")
+			j := strings.Index(good, "flow:")
+			return []byte(good[:i] + "processors:\n" + good[j:])
+		case 2: // filter: null
+			i := strings.Index(good, "filter:")
+			j := strings.Index(good, "processors:")
+			return []byte(good[:i] + "filter:\n" + good[j:])
+		case 3: // a null connection entry in the request flow
+			return []byte(strings.Replace(good, "  request:\n", "  request:\n    -\n", 1))
+		case 4: // flow: null
+			return []byte(good[:strings.Index(good, "flow:")] + "flow:\n")
+		default: // a connection whose `from` is null
+			return []byte(strings.Replace(good, "  response:\n    - from:\n        processor:\n          name: Gen"+st+"\n", "  response:\n    - from:\n", 1))
+		}
 	case strings.HasPrefix(logical, "f/") && tok[0] == 'b':
 		// the flow v<k> preceded by a processor that needs the request body (UserDefinedMetrics): the engine
 		// also asks HAProxy to ship the body for its endpoints (PUT /include_body_from)
